@@ -165,6 +165,9 @@ pub enum Alt {
     ProtectedReencoded(u8),
     /// the response carries two documents of the mDL docType: an altered copy and the authentic one (altered first: true)
     DocumentTwice(bool),
+    /// one bit of the signed MSO flipped so that a member NAME becomes a byte string with the same bytes
+    /// (0: deviceKeyInfo, 1: deviceKey, 2: docType, 3: valueDigests): ciborium still finds the member
+    MsoNameAsBytes(u8),
     /// two mDL documents: the first authentic but disclosing only the AAMVA namespace, the second with altered core items
     DocumentSplit,
     /// device signature bytes that are not a 64-byte r||s in range: 63, 65, 32, 0 bytes, 64 zero bytes
@@ -333,6 +336,15 @@ pub fn apply(alt: &Alt, sc: &Scene, pt: &mut Value, rng: &mut StdRng) {
             let altered = doc_mut(pt).clone();
             if let Some(Value::Array(docs)) = map_get_mut(pt, "documents") {
                 *docs = if *altered_first { vec![altered, authentic] } else { vec![authentic, altered] };
+            }
+        }
+        Alt::MsoNameAsBytes(k) => {
+            let name: &[u8] = [&b"deviceKeyInfo"[..], &b"deviceKey"[..], &b"docType"[..], &b"valueDigests"[..]][*k as usize % 4];
+            if let Value::Bytes(p) = &mut issuer_auth_mut(pt)[2] {
+                let pat: Vec<u8> = [vec![0x60 + name.len() as u8], name.to_vec()].concat();
+                // the LAST occurrence for deviceKey (the first one is the head of "deviceKeyInfo")
+                let pos = if *k % 4 == 1 { p.windows(pat.len()).rposition(|w| w == pat.as_slice()) } else { p.windows(pat.len()).position(|w| w == pat.as_slice()) };
+                if let Some(i) = pos { p[i] ^= 0x20; }
             }
         }
         Alt::DocumentSplit => {
@@ -575,7 +587,8 @@ pub fn c03_alts(rng: &mut StdRng, thorough: bool) -> Vec<Alt> {
     let mut v = vec![Alt::None, Alt::SigTruncate, Alt::ProtectedAlg(-35), Alt::ProtectedAlg(-70000), Alt::ProtectedAlgText, Alt::ProtectedEmpty, Alt::ProtectedKid,
         Alt::X5Remove, Alt::X5Unrelated, Alt::X5SelfSigned, Alt::X5Garbage, Alt::X5Array, Alt::X5RootAsLeaf, Alt::X5EmptyArray, Alt::X5WrongType,
         Alt::X5Forged(false), Alt::X5Forged(true), Alt::X5GenuineThenForger,
-        Alt::ProtectedReencoded(0), Alt::ProtectedReencoded(1), Alt::ProtectedReencoded(2), Alt::ProtectedReencoded(3)];
+        Alt::ProtectedReencoded(0), Alt::ProtectedReencoded(1), Alt::ProtectedReencoded(2), Alt::ProtectedReencoded(3),
+        Alt::MsoNameAsBytes(0), Alt::MsoNameAsBytes(1), Alt::MsoNameAsBytes(2), Alt::MsoNameAsBytes(3)];
     let n = if thorough { 400 } else { 12 };
     for _ in 0..n { v.push(Alt::PayloadFlip(rng.gen_range(0..100_000), rng.gen())); v.push(Alt::SigFlip(rng.gen_range(0..64), rng.gen())); }
     v
@@ -593,7 +606,8 @@ pub fn c04_alts(rng: &mut StdRng, thorough: bool) -> Vec<Alt> {
 pub fn c05_alts(rng: &mut StdRng, thorough: bool) -> Vec<Alt> {
     let mut v = vec![Alt::None, Alt::DevSigOtherKey, Alt::DevNsChange, Alt::DevMac, Alt::DevDocTypeOther, Alt::DevProtectedAlg,
         Alt::DevAttached(0), Alt::DevAttached(1), Alt::DevAttached(2),
-        Alt::DevSigShape(0), Alt::DevSigShape(1), Alt::DevSigShape(2), Alt::DevSigShape(3), Alt::DevSigShape(4)];
+        Alt::DevSigShape(0), Alt::DevSigShape(1), Alt::DevSigShape(2), Alt::DevSigShape(3), Alt::DevSigShape(4),
+        Alt::MsoNameAsBytes(0), Alt::MsoNameAsBytes(1), Alt::MsoNameAsBytes(2), Alt::MsoNameAsBytes(3)];
     let n = if thorough { 200 } else { 10 };
     for _ in 0..n { v.push(Alt::DevSigFlip(rng.gen_range(0..64), rng.gen())); }
     v
